@@ -191,17 +191,56 @@ def analyze(ctx, want):
         cr = p.calls(r"Minimizer::create_from_partition$")
         if cr:
             det = "create_from_partition(%s)" % ", ".join(S.fstr(a)[:40] for a in cr[0][3])
-    # the loop condition variable is assigned `partition_new != partition_old`
-    chg = None
-    for bb, i, s in mn.assigns():
-        if mn.names().get(s["p"]["l"]) == "changed" and not s["p"]["pj"]:
-            rv = s["rv"]
-            if rv["k"] == "use" and rv["op"]["k"] in ("copy", "move"):
-                d = mn.single_def(rv["op"]["p"]["l"])
-                if d and d["kind"] == "call":
-                    chg = (M.call_name(d["term"]), [M.op_str(a) for a in d["term"]["args"]], bb)
-    ok = chg is not None and re.search(r"PartialEq.*>::ne$", chg[0]) is not None
-    ob("C03.e", "refinement-runs-until-the-partition-is-stable", ok, "loop flag := %s" % (str(chg[:2]) if chg else None), mn.loc())
+    # the refinement loop is left exactly when the new partition equals the old one
+    def part_names(c):
+        out = set()
+        for x in S.subterms(c):
+            if x[0] == "ref" and x[1][1][0] == "local":
+                n_ = mn.names().get(x[1][1][2])
+                if n_:
+                    out.add(n_)
+        return out
+    seen_loop = set()
+    ok_all = True
+    det = []
+    # two trips around the loop (no back edge cut) so that a test at the loop head is seen as well
+    ex2, paths2 = run_fn(mn, F, LogModel(), cut_back_edges=False, visit_limit=2, max_paths=6000)
+    for p in paths2:
+        seq = [e for e in p.events if e[0] == "call" and re.search(r"Minimizer::calculate_new_partition$", e[2])]
+        tests = []
+        for k, e in enumerate(seq):
+            new_v = e[4]
+            old_v = ex2.deref_val(p, e[7][0] if len(e) > 7 else e[3][0])
+            old_v = argval(e, 0)
+            found = None
+            for c, o in p.conds:
+                a_ = b_ = None
+                neg = None
+                if c[0] == "binop" and c[1] in ("Ne", "Eq"):
+                    a_, b_, neg = c[2], c[3], (c[1] == "Ne")
+                elif c[0] == "app" and re.search(r"PartialEq(<.*>)?>::(ne|eq)$", c[1]):
+                    a_, b_, neg = ex2.deref_val(p, c[2][0]), ex2.deref_val(p, c[2][1]), c[1].endswith("::ne")
+                if a_ is None:
+                    continue
+                if {S.fstr(a_), S.fstr(b_)} == {S.fstr(new_v), S.fstr(old_v).lstrip("&")} or (a_ == new_v and S.fstr(b_) == S.fstr(old_v).lstrip("&")) or (b_ == new_v and S.fstr(a_) == S.fstr(old_v).lstrip("&")):
+                    found = o if neg else (not o)
+            if found is not None:
+                tests.append(found)
+        rounds = len(seq)
+        if rounds == 0:
+            continue
+        leaves = bool(p.calls(r"Minimizer::create_from_partition$"))
+        if leaves:
+            seen_loop.add("exit")
+            if len(tests) < rounds or tests[rounds - 1] is not False:
+                ok_all = False
+                det.append("leaves the loop after %d round(s) although the partition %s" % (rounds, "changed" if len(tests) >= rounds else "was not compared"))
+        if rounds >= 2:
+            seen_loop.add("again")
+            if not tests or tests[0] is not True:
+                ok_all = False
+                det.append("starts another round although the partition %s" % ("is stable" if tests else "was not compared"))
+    ob("C03.e", "refinement-runs-until-the-partition-is-stable", ok_all and seen_loop == {"exit", "again"}, "; ".join(det) or "loop exits iff partition_new == partition_old (cases %s)" % sorted(seen_loop), mn.loc())
     for p in paths:
         for c in p.calls(r"Minimizer::calculate_new_partition$"):
             a0, a1 = c[3][0], c[3][1]
